@@ -1159,6 +1159,10 @@ func wrap(mk func() gozxing.Reader) func() func(*gozxing.BinaryBitmap, map[gozxi
 	return func() func(*gozxing.BinaryBitmap, map[gozxing.DecodeHintType]interface{}) (interface{}, error) {
 		r := mk()
 		return func(b *gozxing.BinaryBitmap, h map[gozxing.DecodeHintType]interface{}) (interface{}, error) {
+			if isNoHintEntry(h) {
+				res, err := r.DecodeWithoutHints(b)
+				return res, err
+			}
 			res, err := r.Decode(b, h)
 			return res, err
 		}
@@ -1174,7 +1178,13 @@ var imgReaders = []imgReader{
 		return func(b *gozxing.BinaryBitmap, h map[gozxing.DecodeHintType]interface{}) (interface{}, error) {
 			// a multi-reader's outcome is a (possibly empty) list or an error; an empty list that
 			// accompanies an error is not a result
-			res, err := r.DecodeMultiple(b, h)
+			var res []*gozxing.Result
+			var err error
+			if isNoHintEntry(h) {
+				res, err = r.DecodeMultipleWithoutHint(b)
+			} else {
+				res, err = r.DecodeMultiple(b, h)
+			}
 			if len(res) == 0 && err != nil {
 				return nil, err
 			}
@@ -1205,9 +1215,20 @@ func grayOf(m *gozxing.BitMatrix) *image.Gray {
 var flagHints = []gozxing.DecodeHintType{gozxing.DecodeHintType_PURE_BARCODE, gozxing.DecodeHintType_TRY_HARDER, gozxing.DecodeHintType_ALSO_INVERTED,
 	gozxing.DecodeHintType_ASSUME_GS1, gozxing.DecodeHintType_ASSUME_CODE_39_CHECK_DIGIT, gozxing.DecodeHintType_RETURN_CODABAR_START_END}
 
+// noHintEntry stands for "call the entry point that takes no hints" (DecodeWithoutHints /
+// DecodeMultipleWithoutHint); the readers' wrappers recognise the map by its identity.
+var noHintEntry = map[gozxing.DecodeHintType]interface{}{}
+
+func isNoHintEntry(h map[gozxing.DecodeHintType]interface{}) bool {
+	return h != nil && reflect.ValueOf(h).Pointer() == reflect.ValueOf(noHintEntry).Pointer()
+}
+
 func hintSubset(mask int) (map[gozxing.DecodeHintType]interface{}, string) {
 	if mask == 0 {
 		return nil, "-"
+	}
+	if mask < 0 {
+		return noHintEntry, "entry-point-without-hints"
 	}
 	h := map[gozxing.DecodeHintType]interface{}{}
 	s := ""
@@ -1287,7 +1308,7 @@ func runImages() {
 			}
 		}
 	}
-	chk.Range(fmt.Sprintf("16 image readers on every bilevel image with w,h<=4 and <=%d pixels, hints {none, PURE_BARCODE, TRY_HARDER}", maxPix), len(jobs),
+	chk.Range(fmt.Sprintf("16 image readers on every bilevel image with w,h<=4 and <=%d pixels, hints {none, PURE_BARCODE, TRY_HARDER} and the entry point that takes no hints", maxPix), len(jobs),
 		func(i int) string { return fmt.Sprint(jobs[i]) },
 		func(l *mc.Local, i int) {
 			j := jobs[i]
@@ -1298,7 +1319,7 @@ func runImages() {
 						m.Set(k%j.w, k/j.w)
 					}
 				}
-				readImageAll(l, m, []int{0, 1, 2}, "tiny", "")
+				readImageAll(l, m, []int{0, 1, 2, -1}, "tiny", "")
 			}
 		})
 	// every size 1..48 x 1..48 with fills
@@ -1431,10 +1452,13 @@ func runImages() {
 			switch j.kind {
 			case "hints":
 				readImageAll(l, s.m, []int{j.a}, "hints", "")
+				if j.a == 0 {
+					readImageAll(l, s.m, []int{-1}, "hints", "") // the entry point without hints on every valid symbol
+				}
 			case "flip":
 				m := cloneM(s.m)
 				m.Flip(j.a%w, j.a/w)
-				readImageAll(l, m, []int{0, 1}, fmt.Sprint("flip ", j.a), match)
+				readImageAll(l, m, []int{0, 1, -1}, fmt.Sprint("flip ", j.a), match)
 				if match == "QR" {
 					readImageAll(l, m, []int{0}, fmt.Sprint("flip ", j.a), "QRMulti")
 				}
@@ -1577,7 +1601,7 @@ func replay() {
 		decodeRowAll(l, b, "replay", c.Target)
 	case "image":
 		if m := parsePix(c.Pixels); m != nil {
-			readImageAll(l, m, []int{0, 1, 2, 3}, "replay", c.Target)
+			readImageAll(l, m, []int{0, 1, 2, 3, -1}, "replay", c.Target)
 		}
 	case "hint-value":
 		fmt.Println("replay of a hint-value case re-runs the whole hint-value family (the hint value is not serialisable in general)")
